@@ -15,7 +15,7 @@ from pvm.gen import grids as gg
 PROP = "C32"
 N = {"quick": 3000, "thorough": 300000}
 WORKERS = {"quick": 4, "thorough": 16}
-TIMEOUT = {"quick": 300, "thorough": 1500}
+TIMEOUT = {"quick": 600, "thorough": 3000}
 RULE = ("directions: random Gaussian, axis aligned (+-e_i), nearly axis aligned (+-e_i + 1e-7 "
         "noise), nearly anti-parallel to the reference axis, lengths 1e-3..1e3; planar clouds "
         "of 3-10 well spread points in the plane orthogonal to the direction (extent 1e-2..1e2, "
